@@ -100,8 +100,9 @@ func main() {
 			if !strings.HasPrefix(name, abs) {
 				continue
 			}
-			resetFn := in.fileReset(f, len(in.resetFuncs))
+			resetVars := in.fileResetVars(f)
 			in.file(f)
+			resetFn := in.fileReset(resetVars)
 			f.Comments = nil
 			var buf bytes.Buffer
 			if err := format.Node(&buf, p.Fset, f); err != nil {
@@ -648,7 +649,28 @@ func (in *instr) splitRMW(c *astutil.Cursor, lhs ast.Expr, tok token.Token, rhs 
 	c.Replace(blk)
 }
 
+// unsafeForeign lists standard-library types whose methods mutate the receiver
+// and are documented as not safe for concurrent use: a method call through a
+// pointer to one of them is recorded as a write to the pointee.
+var unsafeForeign = map[string]bool{
+	"math/rand.Rand": true, "math/rand/v2.Rand": true, "strings.Builder": true, "bytes.Buffer": true,
+	"container/list.List": true, "container/ring.Ring": true, "bufio.Reader": true, "bufio.Writer": true,
+	"bufio.Scanner": true, "text/tabwriter.Writer": true, "strings.Reader": true, "bytes.Reader": true,
+}
+
 func (in *instr) callExpr(c *astutil.Cursor, n *ast.CallExpr) {
+	if se, ok := n.Fun.(*ast.SelectorExpr); ok {
+		if msel, ok := in.info.Selections[se]; ok && msel.Kind() == types.MethodVal {
+			if pt, ok := msel.Recv().(*types.Pointer); ok {
+				if nt, ok := pt.Elem().(*types.Named); ok && nt.Obj().Pkg() != nil && unsafeForeign[nt.Obj().Pkg().Path()+"."+nt.Obj().Name()] {
+					st.Rewrites["foreign_pointee_write"]++
+					pos := in.fset.Position(n.Lparen)
+					site := fmt.Sprintf("*%s.%s|%s|%s:%d", nt.Obj().Pkg().Name(), nt.Obj().Name(), in.curFunc(), filepath.Base(pos.Filename), pos.Line)
+					se.X = in.call("W", se.X, strLit(site))
+				}
+			}
+		}
+	}
 	switch f := n.Fun.(type) {
 	case *ast.Ident:
 		if _, isB := in.info.Uses[f].(*types.Builtin); isB && f.Name == "close" {
@@ -720,11 +742,22 @@ func (in *instr) selector(c *astutil.Cursor, n *ast.SelectorExpr) {
 			case "time":
 				switch obj.(type) {
 				case *types.Func:
-					if obj.Name() != "Sleep" {
+					switch obj.Name() {
+					case "Sleep":
+					case "Now", "Since":
+						// the system has no clock semantics: a deterministic
+						// logical time derived from the event sequence number
+						st.Rewrites["time_now"]++
+						in.used = true
+						c.Replace(sel(obj.Name()))
+					case "Unix", "UnixMilli", "UnixMicro", "Date", "ParseDuration", "Parse":
+					default:
 						unsupported(in.fset, n.Pos(), "time."+obj.Name())
 					}
 				case *types.TypeName:
-					if obj.Name() != "Duration" {
+					switch obj.Name() {
+					case "Duration", "Time", "Month", "Weekday":
+					default:
 						unsupported(in.fset, n.Pos(), "time."+obj.Name())
 					}
 				}
@@ -902,13 +935,21 @@ func (in *instr) selectStmt(c *astutil.Cursor, n *ast.SelectStmt) {
 	c.Replace(&ast.BlockStmt{List: pre})
 }
 
-// fileReset returns the source of a function, appended to the rewritten file,
-// that re-evaluates the initialiser of every package-level variable declared in
-// the file (printed from the ORIGINAL syntax, so it uses the file's own import
-// names and contains no instrumentation).  Re-running initialisers puts lazily
-// filled caches and registries back into their cold, first-use state.
-func (in *instr) fileReset(f *ast.File, idx int) string {
-	var stmts []string
+// fileResetVars / fileReset produce the source of a function, appended to the
+// rewritten file, that re-evaluates the initialiser of every package-level
+// variable declared in the file.  The variables are chosen before the rewrite
+// (type information is keyed by the original nodes); the initialisers are
+// printed after it, so the text uses exactly the imports the rewritten file
+// has.  Re-running initialisers puts lazily filled caches and registries back
+// into their cold, first-use state.
+type resetVar struct {
+	name string
+	spec *ast.ValueSpec
+	idx  int
+}
+
+func (in *instr) fileResetVars(f *ast.File) []resetVar {
+	var out []resetVar
 	for _, d := range f.Decls {
 		gd, ok := d.(*ast.GenDecl)
 		if !ok || gd.Tok != token.VAR {
@@ -930,19 +971,27 @@ func (in *instr) fileReset(f *ast.File, idx int) string {
 				if _, isFunc := obj.Type().Underlying().(*types.Signature); isFunc {
 					continue
 				}
-				var eb bytes.Buffer
-				if err := format.Node(&eb, in.fset, vs.Values[i]); err != nil {
-					continue
-				}
-				stmts = append(stmts, fmt.Sprintf("\t%s = %s\n", name.Name, eb.String()))
+				out = append(out, resetVar{name.Name, vs, i})
 				in.handledVars[name.Name] = true
 			}
 		}
 	}
+	return out
+}
+
+func (in *instr) fileReset(vars []resetVar) string {
+	var stmts []string
+	for _, v := range vars {
+		var eb bytes.Buffer
+		if err := format.Node(&eb, in.fset, v.spec.Values[v.idx]); err != nil {
+			continue
+		}
+		stmts = append(stmts, fmt.Sprintf("\t%s = %s\n", v.name, eb.String()))
+	}
 	if len(stmts) == 0 {
 		return ""
 	}
-	fn := fmt.Sprintf("simResetFile%d", idx)
+	fn := fmt.Sprintf("simResetFile%d", len(in.resetFuncs))
 	in.resetFuncs = append(in.resetFuncs, fn)
 	return "\nfunc " + fn + "() {\n" + strings.Join(stmts, "") + "}\n"
 }
